@@ -7,17 +7,108 @@ import Cx.Spec.StdLoops
 namespace Cx
 open Cx.Std Cx.Model
 
+/-! ### expand -/
+
+/-- the relative `bytes.IndexByte` scan is the absolute `strings.Cut` scan shifted by `i` -/
+theorem indexDollar_eq_cutDollar (t : Bytes) (fuel i k : Nat) :
+    indexDollar t fuel i k = (cutDollar t fuel (i + k)).map (· - i) := by
+  induction fuel generalizing k with
+  | zero => simp [indexDollar, cutDollar]
+  | succ f ih =>
+    unfold indexDollar cutDollar
+    by_cases h1 : i + k ≥ t.size
+    · simp [h1]
+    · by_cases h2 : t.at (i + k) = 36
+      · simp [h1, h2]
+      · simp only [h1, h2, if_false]
+        rw [ih (k + 1)]
+        rfl
+
+theorem cutDollar_ge (t : Bytes) (fuel i d : Nat) (h : cutDollar t fuel i = some d) : i ≤ d := by
+  induction fuel generalizing i with
+  | zero => simp [cutDollar] at h
+  | succ f ih =>
+    unfold cutDollar at h
+    by_cases h1 : i ≥ t.size
+    · simp [h1] at h
+    · by_cases h2 : t.at i = 36
+      · simp [h1, h2] at h; omega
+      · simp only [h1, h2, if_false] at h
+        have := ih (i + 1) h
+        omega
+
+theorem cutDollar_none_of_ge (t : Bytes) (fuel i : Nat) (h : i ≥ t.size) : cutDollar t fuel i = none := by
+  cases fuel with
+  | zero => rfl
+  | succ f => simp [cutDollar, h]
+
+theorem cxExpandLoop_eq_expand (isNameRune : Nat → Bool) (t src : Bytes) (m : List Int) (names : List (List Nat))
+    (fuel i : Nat) (acc : List Nat) :
+    cxExpandLoop isNameRune t src m names fuel i acc = expand isNameRune t src m names fuel i acc := by
+  induction fuel generalizing i acc with
+  | zero => rfl
+  | succ f ih =>
+    unfold cxExpandLoop expand
+    by_cases hi : i ≥ t.size
+    · simp [hi, cutDollar_none_of_ge t _ i hi]
+    · simp only [hi, if_false]
+      have hidx := indexDollar_eq_cutDollar t (t.size + 1) i 0
+      simp only [Nat.add_zero] at hidx
+      rw [hidx]
+      cases hc : cutDollar t (t.size + 1) i with
+      | none => rfl
+      | some d =>
+        have hge := cutDollar_ge t _ i d hc
+        have hd : i + (d - i) = d := by omega
+        simp only [Option.map_some, hd, ih]
+        rfl
+
 theorem cxExpand_eq_std (isNameRune : Nat → Bool) (t src : Bytes) (m : List Int) (names : List (List Nat)) :
     cxExpand isNameRune t src m names = stdExpand isNameRune t src m names := by
-  sorry
+  unfold cxExpand stdExpand
+  exact cxExpandLoop_eq_expand ..
 
-theorem cxQuoteMeta_eq_std (s : List Nat) : cxQuoteMeta s = stdQuoteMeta s := by
-  sorry
+/-! ### QuoteMeta -/
+
+/-- the escaping map: one backslash in front of every special byte -/
+private abbrev esc : Nat → List Nat := fun c => if special c then [92, c] else [c]
+
+theorem pre_flatMap (s : List Nat) :
+    (stdQuoteMeta.pre s).1 ++ (stdQuoteMeta.pre s).2.flatMap esc = s.flatMap esc := by
+  induction s with
+  | nil => simp [stdQuoteMeta.pre]
+  | cons c t ih =>
+    unfold stdQuoteMeta.pre
+    by_cases hc : special c
+    · simp [hc]
+    · have hc' : special c = false := by simpa using hc
+      simp only [hc', esc, Bool.false_eq_true, if_false, List.flatMap_cons, List.cons_append, List.nil_append]
+      rw [← ih]
 
 /-- what QuoteMeta computes: every special byte gets one backslash in front, nothing else changes -/
 theorem stdQuoteMeta_eq_flatMap (s : List Nat) :
     stdQuoteMeta s = s.flatMap fun c => if special c then [92, c] else [c] := by
-  sorry
+  unfold stdQuoteMeta
+  exact pre_flatMap s
+
+theorem flatMap_esc_of_filter_nil (s : List Nat) (h : (s.filter special).length = 0) : s.flatMap esc = s := by
+  induction s with
+  | nil => rfl
+  | cons c t ih =>
+    by_cases hc : special c
+    · simp [hc] at h
+    · have hc' : special c = false := by simpa using hc
+      simp only [List.filter_cons, hc', Bool.false_eq_true, if_false] at h
+      simp only [List.flatMap_cons, esc, hc', Bool.false_eq_true, if_false, List.cons_append, List.nil_append]
+      rw [ih h]
+
+theorem cxQuoteMeta_eq_std (s : List Nat) : cxQuoteMeta s = stdQuoteMeta s := by
+  rw [stdQuoteMeta_eq_flatMap]
+  unfold cxQuoteMeta
+  by_cases h : (s.filter special).length = 0
+  · simp only [h, if_true]
+    exact (flatMap_esc_of_filter_nil s h).symm
+  · simp only [h, if_false]
 
 /-- un-escaping (drop the backslash in front of a special byte) recovers the input: QuoteMeta loses nothing -/
 def unquote : List Nat → List Nat
@@ -25,12 +116,41 @@ def unquote : List Nat → List Nat
   | c :: t => c :: unquote t
   | [] => []
 
+theorem unquote_cons_of_ne (c : Nat) (t : List Nat) (h : c ≠ 92) : unquote (c :: t) = c :: unquote t := by
+  rw [unquote.eq_2]
+  intro c' t' hc
+  exact absurd hc h
+
 theorem unquote_quoteMeta (s : List Nat) : unquote (stdQuoteMeta s) = s := by
-  sorry
+  rw [stdQuoteMeta_eq_flatMap]
+  induction s with
+  | nil => simp [unquote]
+  | cons c t ih =>
+    by_cases hc : special c
+    · simp only [List.flatMap_cons, hc, if_true, List.cons_append, List.nil_append]
+      rw [unquote.eq_1]
+      simp [hc, ih]
+    · have hne : c ≠ 92 := by
+        intro h; subst h; exact hc (by decide)
+      simp only [List.flatMap_cons, hc]
+      simp only [Bool.false_eq_true, if_false, List.cons_append, List.nil_append]
+      rw [unquote_cons_of_ne c _ hne, ih]
+
+/-! ### Split -/
+
+theorem splitLoop_eq_std (s : List Nat) (n : Int) (ms : List (Nat × Nat)) (beg end_ : Nat) (acc : List (List Nat)) :
+    Cx.Loops.splitLoop s n ms beg end_ acc = Cx.Std.stdSplitLoop s n ms beg end_ acc := by
+  induction ms generalizing beg end_ acc with
+  | nil => rfl
+  | cons p rest ih =>
+    obtain ⟨m0, m1⟩ := p
+    unfold Cx.Loops.splitLoop Cx.Std.stdSplitLoop
+    simp only [ih]
 
 /-- C08 Split: the ported loop is stdlib's loop -/
 theorem split_eq_std (patEmpty : Bool) (s : List Nat) (n : Int) (ms : List (Nat × Nat)) :
     Cx.Loops.split patEmpty s n ms = Cx.Std.stdSplit patEmpty s n ms := by
-  sorry
+  unfold Cx.Loops.split Cx.Std.stdSplit
+  simp only [splitLoop_eq_std]
 
 end Cx
